@@ -131,7 +131,8 @@ class Program:
     def lines(self):
         out = []
         for k, (q, lim) in sorted(self.cfg.items()):
-            out.append('cfg e%d %s%s' % (k, 'queue' if q else 'inline', '' if lim is None else ' limit=%d' % lim))
+            kind = ('manual' if k in self.meta.get('manual', ()) else 'queue') if q else 'inline'
+            out.append('cfg e%d %s%s' % (k, kind, '' if lim is None else ' limit=%d' % lim))
         for i in self.inner.values():
             out += i.lines()
         return out + self.body
@@ -416,6 +417,8 @@ class Gen:
             p_lim = {'C05': 0.5, 'C03': 0.4}.get(self.emph, 0.22)
             lim = rng.choice([0, 0, 1, 1, 2, 3]) if rng.random() < p_lim else None
             prog.cfg[k] = (queue, lim)
+            if queue and rng.random() < 0.4:
+                prog.meta.setdefault('manual', set()).add(k)   # backed by the library's real ManualExecutor
         lazy = rng.random() < {'C12': 0.85, 'C02': 0.3, 'C03': 0.4}.get(self.emph, 0.25)
         src = self.gen_src(prog, lazy, inner=False)
         prog.src = src
@@ -652,7 +655,9 @@ def reparse(lines):
             continue
         if t[0] == 'cfg':
             lim = int(t[3].split('=')[1]) if len(t) > 3 else None
-            prog.cfg[int(t[1][1:])] = (t[2] == 'queue', lim)
+            prog.cfg[int(t[1][1:])] = (t[2] != 'inline', lim)
+            if t[2] == 'manual':
+                prog.meta.setdefault('manual', set()).add(int(t[1][1:]))
             continue
         if t[0] == 'in':
             pid = int(t[1])
